@@ -153,3 +153,30 @@ Theorem precedence_refuted_2 :
   = Some "JSONDefault".
 Proof. vm_compute. reflexivity. Qed.
 
+
+(** * A range clause (1XX ... 5XX) fires exactly for the hundred statuses of its range, for EVERY status *)
+From Coq Require Import Lia.
+Theorem range_clause_bounds : forall d status,
+  status_matches (RRange d) status = true <-> (d * 100 <= status /\ status < d * 100 + 100).
+Proof.
+  intros d status. unfold status_matches. rewrite Nat.eqb_eq. split.
+  - intro H. subst d. split.
+    + rewrite Nat.mul_comm. apply Nat.mul_div_le. discriminate.
+    + pose proof (Nat.div_mod status 100 ltac:(discriminate)) as E. pose proof (Nat.mod_upper_bound status 100 ltac:(discriminate)). lia.
+  - intros [H1 H2]. symmetry. apply (Nat.div_unique status 100 d (status - d * 100)); lia.
+Qed.
+
+(** the clause spelled as bounds with the upper bound one short misses the last status of the range *)
+Definition range_clause_off_by_one (d status : nat) : bool := Nat.leb (d * 100) status && Nat.ltb status (d * 100 + 99).
+Theorem range_clause_off_by_one_refuted :
+  status_matches (RRange 4) 499 = true /\ range_clause_off_by_one 4 499 = false
+  /\ forall d status, status <> d * 100 + 99 -> range_clause_off_by_one d status = status_matches (RRange d) status.
+Proof.
+  split; [reflexivity|]. split; [reflexivity|]. intros d status Hne.
+  destruct (status_matches (RRange d) status) eqn:E.
+  - apply range_clause_bounds in E. unfold range_clause_off_by_one. apply andb_true_iff. split; [apply Nat.leb_le|apply Nat.ltb_lt]; lia.
+  - unfold range_clause_off_by_one. destruct (Nat.leb (d * 100) status) eqn:E1; [|reflexivity].
+    destruct (Nat.ltb status (d * 100 + 99)) eqn:E2; [|reflexivity]. exfalso.
+    apply Nat.leb_le in E1. apply Nat.ltb_lt in E2.
+    assert (X : status_matches (RRange d) status = true) by (apply range_clause_bounds; lia). congruence.
+Qed.
